@@ -87,8 +87,10 @@ class Changes(object):
 
 
 class Run(object):
-    def __init__(self):
-        self.sim = Sim(rib=True, hold_time=0, idle_hold_time=1, afi_safi=('ipv4', 'flowspec', 'vpnv4'))
+    def __init__(self, ibgp=False):
+        self.ibgp = ibgp
+        kw = {'remote_as': 65001} if ibgp else {}
+        self.sim = Sim(rib=True, hold_time=0, idle_hold_time=1, afi_safi=('ipv4', 'flowspec', 'vpnv4'), **kw)
         self.c = ss.establish(self.sim, caps=[rc.cap_mp(1, 1), rc.cap_mp(1, 133), rc.cap_mp(1, 128), rc.cap(2)], as4=True)
         assert self.sim.state == 'ESTABLISHED', self.sim.state
         self.reset_model()
@@ -155,6 +157,8 @@ class Run(object):
                 new = dec_attrs(a)
                 if side == 'rest':
                     new = {int(kk): vv for kk, vv in rest_attrs(a).items()}
+                    if self.ibgp and 5 not in new:
+                        new[5] = 100          # the documented default LOCAL_PREF of the REST API on iBGP sessions
                 if p in table and table[p] != new:
                     self.nontrivial = True
                 if table.get(p) != new:
@@ -394,8 +398,10 @@ def _strip(dp):
 
 
 def run_ops(ops):
-    run = Run()
-    for op in ops:
+    # a leading ['cfg', 'ibgp'] selects an iBGP session (the REST API then adds the default LOCAL_PREF)
+    ibgp = bool(ops) and list(ops[0]) == ['cfg', 'ibgp']
+    run = Run(ibgp=ibgp)
+    for op in (ops[1:] if ibgp else ops):
         res = run.step(list(op))
         if res:
             return run, [f for f in res if not f[0].startswith('harness:')]
@@ -460,7 +466,8 @@ def run_shard(spec, seed, col, tier):
         col.case({'ops': ops}, run.nontrivial, labels=['history', 'len-%d' % (len(ops) // 10 * 10)])
         for sig, detail in res:
             col.fail(sig, {'ops': ops}, detail)
-    hyp_run(col, st.lists(op_strategy, min_size=3, max_size=spec['steps']), body, seed, spec['examples'])
+    hyp_run(col, st.tuples(st.sampled_from([[], [], [['cfg', 'ibgp']]]), st.lists(op_strategy, min_size=3, max_size=spec['steps'])).map(
+        lambda t: t[0] + t[1]), body, seed, spec['examples'])
 
 
 def replay(case):
